@@ -3,6 +3,7 @@ import re
 from vc.gen import Fn, Unit
 from contracts import core
 from contracts import C04 as c04
+from contracts import C15c as c15c
 from contracts.core import VEC, MAT, IM, IV
 
 PRE = ('fax_l0', 'fmeth', 'stdspec')
@@ -80,33 +81,47 @@ APPLY_ROW = Fn(IM + 'apply_along_row', level='A',
 
 def bfn(name, sym, f, tr):
     E = lambda a, b: '%s(%s, %s)' % (f, a, b)
-    vl, vr = 'vstack_left_' + name, 'vstack_right_' + name
-    spec = (helper(vl, 'new[i].iter_mut().zip(&m1[0]).for_each(|(x, y)| *x = y %s *x);' % sym, E('at2(src.data.v@, src.ncols as int, 0, j)', 'at2(old(new).data.v@, old(new).ncols as int, i as int, j)'))
-            + helper(vr, 'new[i].iter_mut().zip(&m2[0]).for_each(|(x, y)| *x = *x %s y);' % sym, E('at2(old(new).data.v@, old(new).ncols as int, i as int, j)', 'at2(src.data.v@, src.ncols as int, 0, j)')))
+    spec = ''
     NEWSHAPE = lambda m: 'new.nrows == %s.nrows && new.ncols == %s.ncols && wf(new)' % (m, m)
     ENTRY = 'at2(new.data.v@, new.ncols as int, r, c) == ' + E('bc(*m1, r, c)', 'bc(*m2, r, c)')
     DONE = lambda hi: 'forall|r: int, c: int| 0 <= r < %s && 0 <= c < new.ncols ==> #[trigger] %s' % (hi, ENTRY)
+    ROWDONE = lambda hi: 'forall|c: int| 0 <= c < %s ==> #[trigger] at2(new.data.v@, new.ncols as int, i as int, c) == %s' % (hi, E('bc(*m1, i as int, c)', 'bc(*m2, i as int, c)'))
+
+    def hloop(ctx, base, idxm):
+        return {'invariant': [ctx, NEWSHAPE(base), 'C12.leaf.h.done:: ' + DONE('i'), 'C12.leaf.h.todo:: row_same(new, *%s, i as int, new.nrows as int)' % base],
+                'body_ghost': 'let ghost pre_new = new;',
+                'body_start': 'lemma_idx(i as int, 0, %s.nrows as int, %s.ncols as int);' % (idxm, idxm),
+                'body_end': ('assert forall|r: int, c: int| 0 <= r < i + 1 && 0 <= c < new.ncols implies #[trigger] %s by { if r == i { assert(at2(pre_new.data.v@, pre_new.ncols as int, r, c) == at2(%s.data.v@, %s.ncols as int, r, c)); } else { assert(at2(pre_new.data.v@, pre_new.ncols as int, r, c) == at2(new.data.v@, new.ncols as int, r, c)); } } '
+                             'assert forall|r: int, c: int| i + 1 <= r < new.nrows && 0 <= c < new.ncols implies #[trigger] at2(new.data.v@, new.ncols as int, r, c) == at2(%s.data.v@, %s.ncols as int, r, c) by { assert(at2(pre_new.data.v@, pre_new.ncols as int, r, c) == at2(%s.data.v@, %s.ncols as int, r, c)); }')
+                            % (ENTRY, base, base, base, base, base, base)}
+
+    def vloops(ctx, base, other):
+        outer = {'iter_name': 'it', 'invariant': ['it.iter.end == %s.nrows' % base, ctx, NEWSHAPE(base), 'C12.leaf.v.done:: ' + DONE('i'), 'C12.leaf.v.todo:: row_same(new, *%s, i as int, new.nrows as int)' % base]}
+        inner = {'iter_name': 'tt', 'invariant': ['tt.iter.end == new.ncols', ctx, NEWSHAPE(base), '0 <= i < new.nrows', 'C12.leaf.v.done.t:: ' + DONE('i'),
+                                                   'C12.leaf.v.todo.t:: row_same(new, *%s, i as int + 1, new.nrows as int)' % base,
+                                                   'C12.leaf.v.row:: ' + ROWDONE('t_'),
+                                                   'C12.leaf.v.row_rest:: forall|c: int| t_ <= c < new.ncols ==> #[trigger] at2(new.data.v@, new.ncols as int, i as int, c) == at2(%s.data.v@, %s.ncols as int, i as int, c)' % (base, base)],
+                 'body_ghost': 'let ghost pre_new = new;',
+                 'body_start': 'lemma_idx(i as int, t_ as int, new.nrows as int, new.ncols as int); lemma_idx(0, t_ as int, %s.nrows as int, %s.ncols as int);' % (other, other),
+                 'body_end': ('assert forall|r: int, c: int| 0 <= r < new.nrows && 0 <= c < new.ncols && !(r == i && c == t_) implies #[trigger] at2(new.data.v@, new.ncols as int, r, c) == at2(pre_new.data.v@, new.ncols as int, r, c) by '
+                              '{ lemma_idx(r, c, new.nrows as int, new.ncols as int); if r * new.ncols + c == i * new.ncols + t_ { lemma_idx_inj(r, c, i as int, t_ as int, new.ncols as int); } } '
+                              'assert forall|r: int, c: int| 0 <= r < i && 0 <= c < new.ncols implies #[trigger] %s by { assert(at2(pre_new.data.v@, new.ncols as int, r, c) == at2(new.data.v@, new.ncols as int, r, c)); } '
+                              'assert forall|c: int| 0 <= c < t_ + 1 implies #[trigger] at2(new.data.v@, new.ncols as int, i as int, c) == %s by { if c < t_ { assert(at2(pre_new.data.v@, new.ncols as int, i as int, c) == at2(new.data.v@, new.ncols as int, i as int, c)); } '
+                              'else { assert(at2(pre_new.data.v@, new.ncols as int, i as int, c) == at2(%s.data.v@, %s.ncols as int, i as int, c)); } } '
+                              'assert forall|c: int| t_ + 1 <= c < new.ncols implies #[trigger] at2(new.data.v@, new.ncols as int, i as int, c) == at2(%s.data.v@, %s.ncols as int, i as int, c) by { assert(at2(pre_new.data.v@, new.ncols as int, i as int, c) == at2(%s.data.v@, %s.ncols as int, i as int, c)); } '
+                              'assert forall|r: int, c: int| i + 1 <= r < new.nrows && 0 <= c < new.ncols implies #[trigger] at2(new.data.v@, new.ncols as int, r, c) == at2(%s.data.v@, %s.ncols as int, r, c) by { assert(at2(pre_new.data.v@, new.ncols as int, r, c) == at2(%s.data.v@, %s.ncols as int, r, c)); }')
+                             % (ENTRY, E('bc(*m1, i as int, c)', 'bc(*m2, i as int, c)'), base, base, base, base, base, base, base, base, base, base)}
+        return outer, inner
+
+    vlo, vli = vloops('wf(*m1) && wf(*m2) && m1.nrows == 1 && m1.ncols == m2.ncols', 'm2', 'm1')
+    vro, vri = vloops('wf(*m1) && wf(*m2) && m2.nrows == 1 && m1.ncols == m2.ncols', 'm1', 'm2')
     loops = {
-        1: {'invariant': ['wf(*m1) && wf(*m2) && m1.ncols == 1 && m1.nrows == m2.nrows', NEWSHAPE('m2'), 'C12.leaf.h_left.done:: ' + DONE('i'), 'C12.leaf.h_left.todo:: row_same(new, *m2, i as int, new.nrows as int)'],
-            'body_ghost': 'let ghost pre_new = new;',
-            'body_start': 'lemma_idx(i as int, 0, m1.nrows as int, m1.ncols as int);',
-            'body_end': ('assert forall|r: int, c: int| 0 <= r < i + 1 && 0 <= c < new.ncols implies #[trigger] %s by { if r == i { assert(at2(pre_new.data.v@, pre_new.ncols as int, r, c) == at2(m2.data.v@, m2.ncols as int, r, c)); } else { assert(at2(pre_new.data.v@, pre_new.ncols as int, r, c) == at2(new.data.v@, new.ncols as int, r, c)); } } '
-                         'assert forall|r: int, c: int| i + 1 <= r < new.nrows && 0 <= c < new.ncols implies #[trigger] at2(new.data.v@, new.ncols as int, r, c) == at2(m2.data.v@, m2.ncols as int, r, c) by { assert(at2(pre_new.data.v@, pre_new.ncols as int, r, c) == at2(m2.data.v@, m2.ncols as int, r, c)); }') % ENTRY},
-        2: {'iter_name': 'it', 'invariant': ['it.iter.end == m2.nrows', 'wf(*m1) && wf(*m2) && m1.nrows == 1 && m1.ncols == m2.ncols', NEWSHAPE('m2'), 'C12.leaf.v_left.done:: ' + DONE('i'), 'C12.leaf.v_left.todo:: row_same(new, *m2, i as int, new.nrows as int)'],
-            'body_ghost': 'let ghost pre_new = new;',
-            'body_end': ('assert forall|r: int, c: int| 0 <= r < i + 1 && 0 <= c < new.ncols implies #[trigger] %s by { if r == i { assert(at2(pre_new.data.v@, pre_new.ncols as int, r, c) == at2(m2.data.v@, m2.ncols as int, r, c)); } else { assert(at2(pre_new.data.v@, pre_new.ncols as int, r, c) == at2(new.data.v@, new.ncols as int, r, c)); } } '
-                         'assert forall|r: int, c: int| i + 1 <= r < new.nrows && 0 <= c < new.ncols implies #[trigger] at2(new.data.v@, new.ncols as int, r, c) == at2(m2.data.v@, m2.ncols as int, r, c) by { assert(at2(pre_new.data.v@, pre_new.ncols as int, r, c) == at2(m2.data.v@, m2.ncols as int, r, c)); }') % ENTRY},
-        3: {'invariant': ['wf(*m1) && wf(*m2) && m2.ncols == 1 && m1.nrows == m2.nrows', NEWSHAPE('m1'), 'C12.leaf.h_right.done:: ' + DONE('i'), 'C12.leaf.h_right.todo:: row_same(new, *m1, i as int, new.nrows as int)'],
-            'body_ghost': 'let ghost pre_new = new;',
-            'body_start': 'lemma_idx(i as int, 0, m2.nrows as int, m2.ncols as int);',
-            'body_end': ('assert forall|r: int, c: int| 0 <= r < i + 1 && 0 <= c < new.ncols implies #[trigger] %s by { if r == i { assert(at2(pre_new.data.v@, pre_new.ncols as int, r, c) == at2(m1.data.v@, m1.ncols as int, r, c)); } else { assert(at2(pre_new.data.v@, pre_new.ncols as int, r, c) == at2(new.data.v@, new.ncols as int, r, c)); } } '
-                         'assert forall|r: int, c: int| i + 1 <= r < new.nrows && 0 <= c < new.ncols implies #[trigger] at2(new.data.v@, new.ncols as int, r, c) == at2(m1.data.v@, m1.ncols as int, r, c) by { assert(at2(pre_new.data.v@, pre_new.ncols as int, r, c) == at2(m1.data.v@, m1.ncols as int, r, c)); }') % ENTRY},
-        4: {'iter_name': 'it', 'invariant': ['it.iter.end == m1.nrows', 'wf(*m1) && wf(*m2) && m2.nrows == 1 && m1.ncols == m2.ncols', NEWSHAPE('m1'), 'C12.leaf.v_right.done:: ' + DONE('i'), 'C12.leaf.v_right.todo:: row_same(new, *m1, i as int, new.nrows as int)'],
-            'body_ghost': 'let ghost pre_new = new;',
-            'body_end': ('assert forall|r: int, c: int| 0 <= r < i + 1 && 0 <= c < new.ncols implies #[trigger] %s by { if r == i { assert(at2(pre_new.data.v@, pre_new.ncols as int, r, c) == at2(m1.data.v@, m1.ncols as int, r, c)); } else { assert(at2(pre_new.data.v@, pre_new.ncols as int, r, c) == at2(new.data.v@, new.ncols as int, r, c)); } } '
-                         'assert forall|r: int, c: int| i + 1 <= r < new.nrows && 0 <= c < new.ncols implies #[trigger] at2(new.data.v@, new.ncols as int, r, c) == at2(m1.data.v@, m1.ncols as int, r, c) by { assert(at2(pre_new.data.v@, pre_new.ncols as int, r, c) == at2(m1.data.v@, m1.ncols as int, r, c)); }') % ENTRY},
+        1: hloop('wf(*m1) && wf(*m2) && m1.ncols == 1 && m1.nrows == m2.nrows', 'm2', 'm1'),
+        2: vlo, 3: vli,
+        4: hloop('wf(*m1) && wf(*m2) && m2.ncols == 1 && m1.nrows == m2.nrows', 'm1', 'm2'),
+        5: vro, 6: vri,
     }
-    for base, (a, b_) in ((5, ('m1', 'm2')), (7, ('m2', 'm1'))):
+    for base, (a, b_) in ((7, ('m1', 'm2')), (9, ('m2', 'm1'))):
         shp = 'wf(*m1) && wf(*m2) && %s.ncols == 1 && %s.nrows == 1 && new.nrows == %s.nrows && new.ncols == %s.ncols && wf(new)' % (a, b_, a, b_)
         lem = 'lemma_idx(i as int, 0, %s.nrows as int, %s.ncols as int); lemma_idx(0, j as int, %s.nrows as int, %s.ncols as int);' % (a, a, b_, b_)
         loops[base] = {'iter_name': 'it', 'invariant': ['it.iter.end == new.nrows', shp, 'C12.leaf.hv.rows:: ' + DONE('i')]}
@@ -126,9 +141,12 @@ def bfn(name, sym, f, tr):
             ensures=['C12.valid:: ' + VALID,
                      'C12.shape:: res.nrows == umax(m1.nrows, m2.nrows) && res.ncols == umax(m1.ncols, m2.ncols) && wf(res)',
                      'C12.entry:: forall|r: int, c: int| 0 <= r < res.nrows && 0 <= c < res.ncols ==> #[trigger] at2(res.data.v@, res.ncols as int, r, c) == ' + E('bc(*m1, r, c)', 'bc(*m2, r, c)')],
-            rewrites=[('new[i].iter_mut().zip(&m1[0]).for_each(|(x, y)| *x = y %s *x);' % sym, '%s(&mut new, i, m1);' % vl,
-                       'R27: statement outlined into an assumed-contract helper (iterator adapters zip/for_each are outside Verus)'),
-                      ('new[i].iter_mut().zip(&m2[0]).for_each(|(x, y)| *x = *x %s y);' % sym, '%s(&mut new, i, m2);' % vr, 'R27'),
+            rewrites=[('new[i].iter_mut().zip(&m1[0]).for_each(|(x, y)| *x = y %s *x);' % sym,
+                       'for t_ in 0..new.ncols { let y_ = m1[[0, t_]]; let x_ = new[[i, t_]]; new[[i, t_]] = y_ %s x_; }' % sym,
+                       'R37b: `A.iter_mut().zip(B).for_each(|(x, y)| *x = E)` assigns E to every element of the row slice A in order, y running over B; the two rows have equal length here '
+                       '(asserted from the classifier), element t of `new[i]` / `m1[0]` is `new[[i, t]]` / `m1[[0, t]]`'),
+                      ('new[i].iter_mut().zip(&m2[0]).for_each(|(x, y)| *x = *x %s y);' % sym,
+                       'for t_ in 0..new.ncols { let y_ = m2[[0, t_]]; let x_ = new[[i, t_]]; new[[i, t_]] = x_ %s y_; }' % sym, 'R37b'),
                       (r'\b(m[12])\[0\]\[0\]\s*%s\s*(m[12])\b(?!\s*\[)' % re.escape(sym),
                        (r'({ proof { lemma_row(0, \1.nrows as int, \1.ncols as int); assert(\1.data.v@.subrange(0 * \1.ncols, (0 + 1) * \1.ncols).len() == \1.ncols); } let sm_ = %s::%s(\1[0][0], \2); proof { assert forall|r: int, c: int| 0 <= r < sm_.nrows && 0 <= c < sm_.ncols implies #[trigger] at2(sm_.data.v@, sm_.ncols as int, r, c) == ' % (tr, name))
                        + E('bc(*m1, r, c)', 'bc(*m2, r, c)') + ' by { lemma_idx(r, c, sm_.nrows as int, sm_.ncols as int); } } sm_ })',
@@ -155,10 +173,10 @@ for name, sym, f, tr in OPS:
 
 _mat_scalar = [x for x in c04.MATRIX_IMPLS if ('<&Matrix> for f64}' in x.path or '<f64> for &Matrix}' in x.path)]
 for name, sym, f, tr in OPS:
-    UNITS.append(Unit('C12_leaves_' + name, 'C12', [BFNS[name]], use=_core_all + [classify, APPLY_ROW, c04.MATMAT['matmat' + name]] + _mat_scalar,
+    UNITS.append(Unit('C12_leaves_' + name, 'C12', [BFNS[name]], use=_core_all + [classify, c15c.apply_row, c04.MATMAT['matmat' + name]] + _mat_scalar,
                       types=TYPES, type_spec=core.TYPE_SPEC, spec=SPEC + LEAF_SPEC + HELPERS, preludes=PRE, broadcast=BC, rlimit=200,
                       notes='broadcast_%s: result shape = element-wise maximum, entry (i,j) = left[i|0][j|0] %s right[i|0][j|0] with operand order kept, incompatible shapes rejected; '
-                            'the two V-stack leaves rest on assumed contracts of their zip/for_each statements, the H-stack leaves on the assumed contract of apply_along_row' % (name, sym)))
+                            'the V-stack row statements (zip / for_each) are verified as their defining loops (rule R37b), the H-stack leaves use the proved contract of apply_along_row' % (name, sym)))
 
 # ---------------------------------------------------------------- the 48 broadcasting operator impls (Matrix∘Matrix, Matrix∘Vector, Vector∘Matrix)
 IMPL_SPEC = r'''
